@@ -117,7 +117,9 @@ FLOORS = {  # ~40 % of what the unchanged tree produces at quick seed 0 (observe
         "gridlike:VectorSpline2D:point_list(1,n)": 6, "gridlike:VectorSpline2D:point_list(n,1)": 6,
         "gridlike:VectorSpline2D:regular_border_displaced_interior": 6, "gridlike:VectorSpline2D:regular_border_one_line_moved": 6,
         "gridlike:VectorSpline2D:regular_grid": 6, "gridlike:VectorSpline2D:rotated_grid": 6, "gridlike:VectorSpline2D:scattered_2d": 6,
-        "gridlike:VectorSpline2D:sheared_grid": 6, "eval:two_dimensional_query_equals_raveled": 345,
+        "gridlike:VectorSpline2D:sheared_grid": 6, "eval:two_dimensional_query_equals_raveled": 345, "defaults:CheckerBoard": 4,
+        "defaults:CheckerBoard(one wavelength)": 8, "defaults:Cubic": 4, "defaults:Linear": 4, "defaults:Spline": 4, "defaults:VectorSpline2D": 4,
+        "defaults:jacobian dtype": 12, "eval:documented_defaults": 40,
     },
     "thorough": {
         "eval:spline_jacobian": 15500, "eval:spline_predict": 38000, "eval:vector_jacobian": 11400, "eval:vector_predict": 36500,
@@ -195,7 +197,9 @@ FLOORS = {  # ~40 % of what the unchanged tree produces at quick seed 0 (observe
         "gridlike:VectorSpline2D:point_list(1,n)": 120, "gridlike:VectorSpline2D:point_list(n,1)": 120,
         "gridlike:VectorSpline2D:regular_border_displaced_interior": 120, "gridlike:VectorSpline2D:regular_border_one_line_moved": 120,
         "gridlike:VectorSpline2D:regular_grid": 120, "gridlike:VectorSpline2D:rotated_grid": 120, "gridlike:VectorSpline2D:scattered_2d": 120,
-        "gridlike:VectorSpline2D:sheared_grid": 120, "eval:two_dimensional_query_equals_raveled": 6900,
+        "gridlike:VectorSpline2D:sheared_grid": 120, "eval:two_dimensional_query_equals_raveled": 6900, "defaults:CheckerBoard": 40,
+        "defaults:CheckerBoard(one wavelength)": 80, "defaults:Cubic": 40, "defaults:Linear": 40, "defaults:Spline": 40,
+        "defaults:VectorSpline2D": 40, "defaults:jacobian dtype": 120, "eval:documented_defaults": 400,
     },
 }
 JOBS = {"quick": 1, "thorough": 16}
@@ -205,8 +209,8 @@ MPMATH_BUDGET = {"quick": 260, "thorough": 60}  # per process (thorough runs 16 
 
 def plan(tier):
     if tier == "quick":
-        return collections.OrderedDict(ladder=360, pairs=480, translation=240, vector=420, trend=480, checker=420, scipy=420, fitted=300, integer=210, history=240, spelling=300, extras=210, large=24, copies=96, gridlike=96)
-    return collections.OrderedDict(ladder=7200, pairs=9600, translation=4800, vector=8400, trend=9600, checker=8400, scipy=8400, fitted=6000, integer=4200, history=4800, spelling=6000, extras=4200, large=96, copies=1920, gridlike=1920)
+        return collections.OrderedDict(ladder=360, pairs=480, translation=240, vector=420, trend=480, checker=420, scipy=420, fitted=300, integer=210, history=240, spelling=300, extras=210, large=24, copies=96, gridlike=96, defaults=70)
+    return collections.OrderedDict(ladder=7200, pairs=9600, translation=4800, vector=8400, trend=9600, checker=8400, scipy=8400, fitted=6000, integer=4200, history=4800, spelling=6000, extras=4200, large=96, copies=1920, gridlike=1920, defaults=700)
 
 
 # ----------------------------------------------------------------------
@@ -337,6 +341,9 @@ def install(tap, run):
         fe, fn = frc
         mindist = float(self.mindist)
         jac = np.asarray(ev.result)
+        if jac.dtype != np.dtype(a["dtype"]):
+            run.violation("jacobian_dtype", "%s.jacobian returned dtype %s, the (documented default) dtype argument is %s" % (type(self).__name__, jac.dtype, a["dtype"]), {"dtype_argument": str(a["dtype"]), "returned": str(jac.dtype)}, key="jacobian-dtype")
+            return
         run.evaluated("spline_jacobian")
         _count_integer(run, "spline_jacobian", a["coordinates"])
         witness = {"east": east, "north": north, "force_east": fe, "force_north": fn, "mindist": mindist}
@@ -433,6 +440,9 @@ def install(tap, run):
         fe, fn = frc
         mindist, poisson = float(self.mindist), float(self.poisson)
         jac = np.asarray(ev.result)
+        if jac.dtype != np.dtype(a["dtype"]):
+            run.violation("jacobian_dtype", "%s.jacobian returned dtype %s, the (documented default) dtype argument is %s" % (type(self).__name__, jac.dtype, a["dtype"]), {"dtype_argument": str(a["dtype"]), "returned": str(jac.dtype)}, key="jacobian-dtype")
+            return
         n, m = east.size, fe.size
         run.evaluated("vector_jacobian")
         _count_integer(run, "vector_jacobian", a["coordinates"])
@@ -554,6 +564,9 @@ def install(tap, run):
         east, north = obs
         degree = int(self.degree)
         jac = np.asarray(ev.result)
+        if jac.dtype != np.dtype(a["dtype"]):
+            run.violation("jacobian_dtype", "%s.jacobian returned dtype %s, the (documented default) dtype argument is %s" % (type(self).__name__, jac.dtype, a["dtype"]), {"dtype_argument": str(a["dtype"]), "returned": str(jac.dtype)}, key="jacobian-dtype")
+            return
         run.evaluated("trend_jacobian")
         _count_integer(run, "trend_jacobian", a["coordinates"])
         nterms = (degree + 1) * (degree + 2) // 2
@@ -732,14 +745,14 @@ def install(tap, run):
                 run.violation("scipy_predict", "%s(rescale=%s) differs from SciPy's %s on the same points by %.3g (tolerance %.3g)"
                               % (rec["name"], rec["kwargs"].get("rescale"), rec["cls"].__name__, err, tol), witness, key="scipy-value")
 
-    tap.method(verde.Spline, "jacobian", post=post_spline_jacobian, subclasses=False)
+    tap.method(verde.Spline, "jacobian", post=post_spline_jacobian, subclasses=False, documented={"dtype": "float64"})
     tap.method(verde.Spline, "predict", post=post_spline_predict, subclasses=False)
-    tap.method(verde.VectorSpline2D, "jacobian", post=post_vector_jacobian, subclasses=False)
+    tap.method(verde.VectorSpline2D, "jacobian", post=post_vector_jacobian, subclasses=False, documented={"dtype": "float64"})
     tap.method(verde.VectorSpline2D, "predict", post=post_vector_predict, subclasses=False)
-    tap.method(verde.Trend, "jacobian", post=post_trend_jacobian, subclasses=False)
+    tap.method(verde.Trend, "jacobian", post=post_trend_jacobian, subclasses=False, documented={"dtype": "float64"})
     tap.method(verde.Trend, "predict", post=post_trend_predict, subclasses=False)
     tap.method(vsyn.CheckerBoard, "predict", post=post_checker_predict, subclasses=False)
-    tap.method(vsg._BaseScipyGridder, "fit", post=post_scipy_fit, subclasses=False)
+    tap.method(vsg._BaseScipyGridder, "fit", post=post_scipy_fit, subclasses=False, documented={"weights": None})
     tap.method(vsg._BaseScipyGridder, "predict", post=post_scipy_predict, subclasses=False)
 
 
@@ -1818,7 +1831,71 @@ def _stream_gridlike(run, rng, verde, index):
                                                                             "against the formula at the real node positions (predict monitors) and against the raveled call"})
 
 
-_STREAMS = {"gridlike": _stream_gridlike, "large": _stream_large, "copies": _stream_copies, "extras": _stream_extras, "spelling": _stream_spelling, "history": _stream_history, "integer": _stream_integer, "ladder": _stream_ladder, "pairs": _stream_pairs, "translation": _stream_translation, "vector": _stream_vector,
+def _stream_defaults(run, rng, verde, index):
+    """Estimators built with NO optional arguments behave exactly like ones with the DOCUMENTED defaults spelled out."""
+    kind = index % 7
+    name = ("CheckerBoard", "CheckerBoard(one wavelength)", "Spline", "VectorSpline2D", "Linear", "Cubic", "jacobian dtype")[kind]
+    n = int(rng.integers(8, 40))
+    east, north = rng.uniform(0, 5000, n), rng.uniform(-5000, 0, n)
+    data = gen.smooth_field(rng, east, north, 1.0)
+    q = int(rng.integers(5, 20))
+    query = (rng.uniform(100, 4900, q), rng.uniform(-4900, -100, q))
+
+    def judge(a, b, what):
+        run.evaluated("documented_defaults")
+        run.count("defaults:" + name)
+        pa, pb = _values(a), _values(b)
+        if not (len(pa) == len(pb) and all(np.array_equal(x, y, equal_nan=True) for x, y in zip(pa, pb))):
+            run.violation("documented_defaults", "%s: %s" % (name, what), {"without_arguments": list(pa), "documented_defaults_spelled_out": list(pb), "query_east": query[0],
+                                                                     "query_north": query[1]}, key="defaults:" + name)
+        else:
+            run.mark_nontrivial("defaults", name, query[0], query[1], east, north)
+
+    if kind == 0:
+        plain = _intend(verde.synthetic.CheckerBoard())
+        spelled = _intend(verde.synthetic.CheckerBoard(amplitude=1000, region=(0, 5000, -5000, 0), w_east=None, w_north=None))
+        judge(plain.predict(query), spelled.predict(query), "CheckerBoard() differs from CheckerBoard(amplitude=1000, region=(0, 5000, -5000, 0), w_east=None, w_north=None)")
+        if rng.random() < 0.5:
+            plain.grid(shape=(5, 6))
+    elif kind == 1:
+        w = float(rng.uniform(200, 4000))
+        east_only = _intend(verde.synthetic.CheckerBoard(w_east=w), w_east=w)
+        north_only = _intend(verde.synthetic.CheckerBoard(w_north=w), w_north=w)
+        judge(east_only.predict(query), _intend(verde.synthetic.CheckerBoard(1000, (0, 5000, -5000, 0), w, None), w_east=w).predict(query), "w_east given, w_north left out")
+        judge(north_only.predict(query), _intend(verde.synthetic.CheckerBoard(1000, (0, 5000, -5000, 0), None, w), w_north=w).predict(query), "w_north given, w_east left out")
+    elif kind == 2:
+        plain = verde.Spline().fit((east, north), data)
+        spelled = verde.Spline(mindist=None, damping=None, force_coords=None, engine="auto").fit((east, north), data)
+        judge(plain.predict(query), spelled.predict(query), "Spline() differs from Spline(mindist=None, damping=None, force_coords=None, engine='auto')")
+    elif kind == 3:
+        e5, n5 = east * 40, north * 40  # the default mindist is 10 km
+        d2 = (data, gen.smooth_field(rng, e5, n5, 1.0))
+        plain = verde.VectorSpline2D().fit((e5, n5), d2)
+        spelled = verde.VectorSpline2D(poisson=0.5, mindist=10e3, damping=None, force_coords=None, engine="auto").fit((e5, n5), d2)
+        judge(plain.predict((query[0] * 40, query[1] * 40)), spelled.predict((query[0] * 40, query[1] * 40)),
+              "VectorSpline2D() differs from VectorSpline2D(poisson=0.5, mindist=10e3, damping=None, force_coords=None, engine='auto')")
+    elif kind in (4, 5):
+        cls = verde.Linear if kind == 4 else verde.Cubic
+        an = north * 300.0  # anisotropic: the rescale default matters
+        try:
+            plain, spelled = cls().fit((east, an), data), cls(rescale=False).fit((east, an), data)
+        except Exception as exc:  # noqa: BLE001
+            if "qhull" in (type(exc).__name__ + str(exc)).lower():
+                run.count("refused:qhull")
+                return
+            raise
+        tri = np.array([rng.choice(n, 3, replace=False) for _ in range(q)])
+        wts = rng.dirichlet(np.ones(3), q)
+        inside = ((east[tri] * wts).sum(axis=1), (an[tri] * wts).sum(axis=1))
+        judge(plain.predict(inside), spelled.predict(inside), "%s() differs from %s(rescale=False)" % (cls.__name__, cls.__name__))
+    else:
+        for est, args in ((verde.Spline(), ((east, north), (east[:4], north[:4]))), (verde.VectorSpline2D(mindist=100.0), ((east, north), (east[:4], north[:4]))),
+                          (verde.Trend(2), ((east, north),))):
+            judge(est.jacobian(*args), est.jacobian(*args, dtype="float64"), "%s.jacobian(...) differs from jacobian(..., dtype='float64')" % type(est).__name__)
+    run.sample("defaults", {"estimator": name, "compared": "predictions / Jacobians of estimators built without optional arguments against the documented defaults spelled out"})
+
+
+_STREAMS = {"defaults": _stream_defaults, "gridlike": _stream_gridlike, "large": _stream_large, "copies": _stream_copies, "extras": _stream_extras, "spelling": _stream_spelling, "history": _stream_history, "integer": _stream_integer, "ladder": _stream_ladder, "pairs": _stream_pairs, "translation": _stream_translation, "vector": _stream_vector,
             "trend": _stream_trend, "checker": _stream_checker, "scipy": _stream_scipy, "fitted": _stream_fitted}
 
 
